@@ -95,7 +95,7 @@ NAME_SCHEMES = [
 for _sch in NAME_SCHEMES:
     for _k, _v in _sch.items():
         DIM.setdefault(_v, DIM[_k])
-_CTX = dict(names={}, rev=False, scale=Fr(1), numstyle=None)
+_CTX = dict(names={}, rev=False, scale=Fr(1), numstyle=None, int_params=False)
 SPATIAL = ("x", "y", "z")          # coordinates that the length scale of a case applies to (not the product variable s, not parameters)
 
 
@@ -107,6 +107,7 @@ def set_naming(case):
     _CTX["rev"] = bool(case.get("param_order_reversed"))
     _CTX["scale"] = Fr(case.get("scale") or 1)
     _CTX["numstyle"] = case.get("numstyle")
+    _CTX["int_params"] = bool(case.get("int_params"))
 
 
 def lam():
@@ -176,6 +177,8 @@ def mk_params(tp, names, prows):
     for p in names:
         s = tp.spaces.R1(nm(p))
         sp = s if sp is None else sp * s
+    if _CTX.get("int_params"):       # parameter rows handed over as INT64 (shape parameters that are functions of them inherit the dtype)
+        return tp.spaces.Points(torch.tensor([[int(r[p][0]) for p in names] for r in prows], dtype=torch.int64), sp)
     return tp.spaces.Points(torch.tensor([[float(r[p][0]) for p in names] for r in prows], dtype=torch.float32), sp)
 
 
@@ -904,10 +907,16 @@ def make_cases(ctx):
     rng = ctx.rng
     cases = []
 
+    union_count = [0]
+
     def add(kind, node, params, prows, **kw):
         sch = rng.choice(NAME_SCHEMES) if rng.random() < 0.6 else {}
         extra = {}
-        if kind in ("tape", "law", "csg", "union", "prod", "evalhist", "gridx") and "numstyle" not in kw and rng.random() < (0.5 if kind == "union" else 0.3):
+        if kind == "union":
+            union_count[0] += 1
+        if kind == "union" and union_count[0] % 2 == 0:
+            extra["scale"] = "1/1000000"         # FIXED share: every second union case has lengths of order 1e-6 (measures below 1e-10)
+        elif kind in ("tape", "law", "csg", "union", "prod", "evalhist", "gridx") and "numstyle" not in kw and rng.random() < (0.5 if kind == "union" else 0.3):
             extra["scale"] = str(rng.choice([Fr(1, 10 ** 6), Fr(1, 10 ** 6), Fr(1, 1000), Fr(1000), Fr(10 ** 6)]))      # length scales 1e-6 ... 1e6
         cases.append(dict(id=len(cases), kind=kind, dom=node.describe(), params=params, prows=prows_json(prows),
                           seed=rng.randint(0, 2 ** 31 - 1), names=sch, param_order_reversed=rng.random() < 0.3, **extra, **kw))
@@ -1122,6 +1131,24 @@ def make_cases(ctx):
             if i < ctx.scale(2, 10):      # the same boundary, a few points per call (known finding)
                 add("boolbdry", node, [], [], N=0, api="dom.n", set_volume=True, small_n=rng.choice([2, 10]), calls=ctx.scale(800, 4000))
             break
+    # 8d'. FIXED share: integer-dtype / python-int bounding boxes under the LHS law (n >= 3 not dividing the width): intervals with
+    #      int64 / python-int bounds, products of intervals with set_bounding_box(python ints), bounds that are functions of INT64 parameters
+    for i in range(ctx.scale(8, 80)):
+        n_ = rng.choice([3, 5, 7, 11, 16, 50, 64])
+        flavour = ["int64-interval", "set_bounding_box-ints", "int64-parameter-bounds", "int64-interval"][i % 4]
+        lo_, w_ = rng.randint(-3, 2), rng.randint(1, 4)
+        if flavour == "int64-interval":
+            nd = Node("interval", "y", [PF([geomgen.c(lo_)]), PF([geomgen.c(lo_ + w_)])])
+            add("lhs", nd, [], [], n=n_, calls=rng.choice([1, 2]), setbox=False, numstyle="int64", int_box=flavour)
+        elif flavour == "set_bounding_box-ints":
+            lo2, w2 = rng.randint(-3, 2), rng.randint(1, 4)
+            nd = Node("prod", None, [], [Node("interval", "y", [PF([geomgen.c(lo_)]), PF([geomgen.c(lo_ + w_)])]),
+                                         Node("interval", "s", [PF([geomgen.c(lo2)]), PF([geomgen.c(lo2 + w2)])])])
+            add("lhs", nd, [], [], n=n_, calls=rng.choice([1, 2]), setbox=True, numstyle="int", int_box=flavour)
+        else:
+            nd = Node("interval", "y", [PF([geomgen.v("t")]), PF([("+", geomgen.v("t"), geomgen.c(w_))])])
+            rows_ = [{"t": [Fr(rng.randint(-3, 3))]} for _ in range(rng.choice([1, 2]))]
+            add("lhs", nd, ["t"], rows_, n=n_, calls=rng.choice([1, 2]), setbox=False, int_params=True, int_box=flavour)
     # 8d. integer-valued shape parameters in several number styles (python ints, int64 / 0-d tensors, numpy) for every law
     for i in range(ctx.scale(16, 160)):
         pick = ["law", "tape", "lhs", "gauss", "gridx", "lhs", "law", "lhs"][i % 8]
@@ -2794,6 +2821,8 @@ def run(ctx, rep, cases=None):
             rep.count("length-scale:%.0e" % float(Fr(cs["scale"])) + ":" + kind)
         if cs.get("numstyle"):
             rep.count("number-style:" + cs["numstyle"] + ":" + kind)
+        if cs.get("int_box"):
+            rep.count("lhs-integer-box:" + cs["int_box"])
         _t0 = time.time()
         try:
             if kind == "tape":
